@@ -394,7 +394,8 @@ def project_configs(ctx, tag, proj, quick):
         add(f"seed{s}", seed=s)
         add(f"seed{s}_w4", seed=s, w=4, delay_kind="random")
     # directory enumeration order (controlled: the scratch file system's readdir order does not follow creation order)
-    for e in (["reverse", "shuffle1"] if quick else ["reverse", "shuffle1", "shuffle2", "rotate", "sorted"]):
+    # "sorted" and "reverse" always differ from each other (the root has >= 2 entries), whatever the file system's own order is
+    for e in (["reverse", "sorted", "shuffle1"] if quick else ["reverse", "sorted", "shuffle1", "shuffle2", "rotate"]):
         add(f"enum_{e}", enum=e)
     if not quick:
         add("enum_shuffle3_w4", enum="shuffle3", w=4, delay_kind="random", seed=2)
@@ -446,12 +447,14 @@ def sast_issue_configs(ctx, proj, quick):
     for sd in ((2, 3) if quick else (2, 3, 4, 5, 6)):     # e.g. the set-ordered default include patterns reach filter_paths only here
         add("ps", f"seed{sd}", seed=sd)
     add("ps", "enum_reverse", enum="reverse")
-    add("ps", "enum_shuffle1", enum="shuffle1")
+    add("ps", "enum_sorted", enum="sorted")
     opt = ["--path-exclude", "no_such_dir/**"]
     add("pso", "base", role="base", extra=opt)
     add("pso", "enum_reverse", enum="reverse", extra=opt)
+    add("pso", "enum_sorted", enum="sorted", extra=opt)
     if not quick:
         add("ps", "enum_rotate_w4", enum="rotate", w=4, delay_kind="reversed")
+        add("ps", "enum_shuffle1", enum="shuffle1")
         add("ps", "enum_shuffle2", enum="shuffle2")
         add("pso", "enum_shuffle1_w4", enum="shuffle1", w=4, delay_kind="random", extra=opt)
         add("pso", "seed3", seed=3, extra=opt)
@@ -548,8 +551,9 @@ def run(ctx: core.Ctx):
         for j, perm in enumerate(itertools.permutations(range(3))):
             cfgs.append({"name": f"ex_perm{j}", "project": "ex", "files": exfiles, "order": list(exfiles), "w": 3, "delay_kind": "exhaustive",
                          "delays": {expy[i]: 0.06 * (perm[i] + 1) for i in range(3)}, "seed": 0, "order_kind": "natural", "role": "perturbed"})
-        cfgs.append({"name": "ex_enum_reverse", "project": "ex", "files": exfiles, "order": list(exfiles), "w": 1, "delay_kind": "none",
-                     "delays": {}, "seed": 0, "order_kind": "natural", "enum": "reverse", "role": "perturbed"})
+        for e in ("reverse", "sorted"):
+            cfgs.append({"name": f"ex_enum_{e}", "project": "ex", "files": exfiles, "order": list(exfiles), "w": 1, "delay_kind": "none",
+                         "delays": {}, "seed": 0, "order_kind": "natural", "enum": e, "role": "perturbed"})
         for i, f in enumerate(expy):
             cfgs.append({"name": f"ex_only{i}", "project": "ex", "files": {f: exfiles[f]}, "order": [f], "w": 1, "delay_kind": "none",
                          "delays": {}, "seed": 0, "order_kind": "natural", "role": "only", "only": f})
@@ -574,7 +578,7 @@ def run(ctx: core.Ctx):
                                          ("w16_increasing_seed3", 16, "increasing", 3, "natural", pd_natural),
                                          ("order_reversed", 1, "none", 0, "reversed", list(reversed(pd_natural))),
                                          ("enum_reverse", 1, "none", 0, "natural", pd_natural),
-                                         ("enum_shuffle1", 1, "none", 0, "natural", pd_natural)] + \
+                                         ("enum_sorted", 1, "none", 0, "natural", pd_natural)] + \
             ([] if quick else [("w3_random_seed5_shuffled", 3, "random", 5, "shuffled", rng.sample(pd_natural, len(pd_natural))),
                                ("seed4", 1, "none", 4, "natural", pd_natural)]):
         cfgs.append({"name": f"pd_{name}", "project": "pd", "files": pd_files, "order": order, "w": w, "delay_kind": dk,
@@ -589,8 +593,9 @@ def run(ctx: core.Ctx):
         cfgs.append({"name": f"wit_w{w}", "project": "wit", "files": wfiles, "order": list(wfiles), "w": w, "delay_kind": "uniform",
                      "delays": {p: wit["delay"] for p in wfiles}, "seed": 0, "order_kind": "natural",
                      "role": "base" if w == wit["w"] else "perturbed"})
-    cfgs.append({"name": "wit_enum_reverse", "project": "wit", "files": wfiles, "order": list(wfiles), "w": wit["w"], "delay_kind": "uniform",
-                 "delays": {p: wit["delay"] for p in wfiles}, "seed": 0, "order_kind": "natural", "enum": "reverse", "role": "perturbed"})
+    for e in ("reverse", "sorted"):
+        cfgs.append({"name": f"wit_enum_{e}", "project": "wit", "files": wfiles, "order": list(wfiles), "w": wit["w"], "delay_kind": "uniform",
+                     "delays": {p: wit["delay"] for p in wfiles}, "seed": 0, "order_kind": "natural", "enum": e, "role": "perturbed"})
     if not quick:
         cfgs.append({"name": "wit_default", "project": "wit", "files": wfiles, "order": list(wfiles), "w": None, "delay_kind": "uniform",
                      "delays": {p: wit["delay"] for p in wfiles}, "seed": 0, "order_kind": "natural", "role": "perturbed"})
